@@ -164,7 +164,7 @@ def main(tier, seed, replay=None):
         print("replay file records:", json.dumps(r, default=str)[:1500])
         return 1
     regen_all()
-    ok_make, log = coq_make(["Proofs/CompositeSound.vo", "Proofs/SplitComposite.vo"])
+    ok_make, log = coq_make(["Proofs/CompositeSound.vo", "Proofs/SplitComposite.vo", "Proofs/CompCacheSound.vo"])
     pr = check_props(PROP) if ok_make else {"ok": False, "obligations": [
         {"name": "C12_*", "closed": False, "axioms": ["<does not compile>"], "ok": False}], "log": log[-3000:]}
     rep.obligations(pr, "make Proofs/CompositeSound.vo && coqc -R coq CV coq/Props/C12.v (Print Assumptions)")
